@@ -235,8 +235,10 @@ Definition doc_item_kinds : list (str * str) :=
 (* the attributes of an enclosing entity that hold things of a component kind *)
 Definition scope_attrs_of_collection (c : str) : list str :=
   if str_eqb c (s "procedures") then [s "functions"; s "subroutines"; s "interfaces"]
+  else if str_eqb c (s "absinterfaces") then [s "absinterfaces"; s "interfaces"]
+       (* inside a scope "interface" may as well mean one of its generic interfaces *)
   else if str_eqb c (s "allfiles") then []
-  else [c].                      (* types, absinterfaces, modules, submodules, programs, ... *)
+  else [c].                      (* types, modules, submodules, programs, ... *)
 
 Definition aval_ids (v : aval) : list nat :=
   match v with AList ids => ids | ASingle i => [i] | _ => [] end.
@@ -246,8 +248,11 @@ Definition contents (e : ent) : list nat := flat_map (fun av => aval_ids (snd av
 Definition contents_of (e : ent) (attrs : list str) : list nat :=
   flat_map (fun a => match assoc_get a (e_attrs e) with Some v => aval_ids v | None => [] end) attrs.
 
+(* only something with a place in the documentation can be linked to *)
+Definition has_url (p : proj) (i : nat) : bool :=
+  match get_ent p i with Some e => e_has_url e | None => false end.
 Definition matching (p : proj) (name : str) (ids : list nat) : list nat :=
-  filter (fun i => name_eqb name (name_of p i)) ids.
+  filter (fun i => name_eqb name (name_of p i) && has_url p i) ids.
 
 Definition comp_kind (k : str) : option str :=
   match assoc_get (lower k) doc_comp_kinds with
